@@ -4,7 +4,9 @@
    create_introns, create_splice_sites, children_bp, bed12 and merge_all must give.                                    *)
 EXTENDS Intervals, Json, IOUtils
 Data == JsonDeserialize(IOEnv.SEED_FILE)
-NumFromFile == {<<Data.num[i][1], Data.num[i][2]>> : i \in 1..Len(Data.num)}
+\* exon numbers 0..12 are the only numeric attribute values of the generated gene models
+\* (a substituted constant is re-evaluated at every use, so it must not read the seed file)
+NumFromFile == {<<Digits(n), n * 1000>> : n \in 0..12}
 T_mRNA == <<109, 82, 78, 65>>
 T_CDSx == <<67, 68, 83>>
 FView(f) == [seqid |-> f.seqid, start |-> f.start, end |-> f.end, strand |-> f.strand, ftype |-> f.ftype, attrs |-> f.attrs]
